@@ -95,6 +95,12 @@ CHECKS["C13"] = dict(
     text="128 histories (quick) of 4-30 edits over a two-file project: trivia shifts, renames in one or both files, statement / item insertion, duplication, deletion and moves, syntax-breaking edits and repairs, override unset / set, no-op rewrites, literal changes; ~750 check points per quick run, about a third on error-free contents (Sierra compared) and two thirds on erroneous contents (diagnostics with line/column compared).",
     note="Trusted: a fresh RootDatabase as the reference. The project is rooted at a non-existent directory; all contents arrive through file overrides (the language-server path), so on-disk change detection is not exercised.")
 
+CHECKS["C12"] = dict(
+    level="exploration", design="DESIGN.md 3/C12",
+    technique="metamorphic property-based testing over histories and schedules: each project is compiled in a fresh database plainly (one-thread pool) and in a second fresh database after a generated history of unrelated queries (other crates, shuffled per-function Sierra / lowering queries, partly concurrent on database snapshots) inside a rayon pool of 1/2/4/16 threads; every output must be byte-identical",
+    text="~500 projects per quick run (generated programs, e2e snippets, examples, a third of them with token mutations for non-empty diagnostics, one in eight a triple of Starknet test contracts); compared: diagnostics text, printed Sierra with debug names + statement annotations, canonical-id program, CASM text, ContractClass and CasmContractClass JSON. In ~85% of the cases the raw interned ids of the two runs differ, i.e. the history really permuted id allocation.",
+    note="The harness owns query order, snapshot concurrency and pool size, not thread interleavings inside a pool. Raw interned ids (also inside the JSON form of debug-name ids and in the annotations keyed by them) legitimately depend on the history and are not compared.")
+
 PENDING_REASON = "check not built yet in this session (planned in DESIGN.md section 3; the property itself is amenable to the technique)"
 
 def main():
